@@ -3,8 +3,18 @@
 A *spec* is hashable and describes a tree up to the concrete leaf values:
   'int' | 'str' | 'arr'                      a leaf kind
   ('dict'|'list'|'tuple', (child specs...))  a node
+  ('alias', n)                               the very same *object* as the n-th
+                                             object of this tree (see below)
 `build(spec)` makes fresh Python objects; leaves carry their depth-first number
 so that every leaf of a tree is distinguishable (alignment is observable).
+
+Aliased sub-trees: while a tree is built, every object (leaf or node) gets a
+number when it is *completed* (post-order: children before their parent, left
+before right).  `('alias', n)` stands for object n itself, so the same dict /
+list / tuple / ndarray is reachable through more than one path
+(`s = [1, 2]; {'a': s, 1: s}`).  Only completed objects can be referenced,
+hence no cycles: as a *value* an aliased tree is an ordinary finite tree and
+`alias_specs` bounds the depth of that value.
 """
 from __future__ import annotations
 
@@ -34,9 +44,70 @@ def specs(depth, max_children=2, leaf_kinds=LEAF_KINDS, node_kinds=NODE_KINDS,
 
 
 def depth_of(spec):
+  """Depth of an alias-free spec (`alias_specs` bounds aliased ones itself)."""
   if isinstance(spec, str):
     return 0
+  if spec[0] == 'alias':
+    raise ValueError('depth_of: the depth of an alias depends on its context')
   return 1 + max((depth_of(c) for c in spec[1]), default=0)
+
+
+def is_alias(spec):
+  return not isinstance(spec, str) and spec[0] == 'alias'
+
+
+def n_aliases(spec):
+  if isinstance(spec, str):
+    return 0
+  if spec[0] == 'alias':
+    return 1
+  return sum(n_aliases(c) for c in spec[1])
+
+
+ALIAS_TARGETS = NODE_KINDS + ('arr',)
+
+
+def alias_specs(depth, max_children=2, leaf_kinds=LEAF_KINDS,
+                node_kinds=NODE_KINDS, targets=ALIAS_TARGETS):
+  """All root nodes of value depth <= depth holding at least one alias.
+
+  Exactly the trees of `specs(depth, ...)` in which one or more children (at
+  any level) are replaced, in every possible way, by a reference to an object
+  of a kind in `targets` completed earlier in depth-first order, as long as the
+  depth of the resulting *value* stays <= depth.  `max_children` is an int or a
+  tuple indexed by the level of the node (root = 0; the last entry is used
+  for deeper levels).  The empty tuple is never a target (CPython has only one
+  `()` object, so an alias of it is not a new tree).
+  """
+  per_level = max_children if isinstance(max_children, tuple) else (
+      max_children,)
+
+  def gen(room, level, built):
+    # yields (spec, objects built afterwards, #aliases, depth of the value)
+    for k in leaf_kinds:
+      yield k, built + ((k, 0, True),), 0, 0
+    for n, (kind, d, ok) in enumerate(built):
+      if ok and d <= room and kind in targets:
+        yield ('alias', n), built, 1, d
+    if room <= 0:
+      return
+    width = per_level[min(level, len(per_level) - 1)]
+    for kind in node_kinds:
+      for n in range(width + 1):
+        for ch, b, na, d in children(n, room - 1, level + 1, built):
+          yield (kind, ch), b + ((kind, 1 + d, bool(n) or kind != 'tuple'),), (
+              na), 1 + d
+
+  def children(n, room, level, built):
+    if n == 0:
+      yield (), built, 0, 0
+      return
+    for s, b, na, d in gen(room, level, built):
+      for rest, b2, nb, d2 in children(n - 1, room, level, b):
+        yield (s,) + rest, b2, na + nb, max(d, d2)
+
+  return [s for s, _, na, _ in gen(depth, 0, ()) if na and is_node(s)
+          and s[0] != 'alias']
 
 
 def is_node(spec):
@@ -51,6 +122,8 @@ def shapes(depth, max_children=2):
 def n_leaves(spec):
   if isinstance(spec, str):
     return 1
+  if spec[0] == 'alias':
+    return 0   # no leaf of its own (numbers of objects do not depend on kinds)
   return sum(n_leaves(c) for c in spec[1])
 
 
@@ -61,6 +134,8 @@ def with_leaf_kinds(shape, kinds):
   def rec(s):
     if isinstance(s, str):
       return next(it)
+    if s[0] == 'alias':
+      return s
     return (s[0], tuple(rec(c) for c in s[1]))
   return rec(shape)
 
@@ -70,42 +145,54 @@ def rotated(shape, offset):
   return with_leaf_kinds(shape, [LEAF_KINDS[(offset + i) % 3] for i in range(n)])
 
 
-def build(spec, counter=None):
+def build(spec, counter=None, built=None):
+  """Fresh objects for spec; `built` collects every completed object."""
   counter = counter if counter is not None else itt.count(1)
+  built = built if built is not None else []
   if isinstance(spec, str):
     i = next(counter)
     if spec == 'int':
-      return i
-    if spec == 'str':
-      return f's{i}'
-    return np.array([i, i + 100])
+      out = i
+    elif spec == 'str':
+      out = f's{i}'
+    else:
+      out = np.array([i, i + 100])
+    built.append(out)
+    return out
   kind, children = spec
-  vals = [build(c, counter) for c in children]
+  if kind == 'alias':
+    return built[children]
+  vals = [build(c, counter, built) for c in children]
   if kind == 'dict':
-    return dict(zip(DICT_KEYS, vals))
-  if kind == 'rdict':
+    out = dict(zip(DICT_KEYS, vals))
+  elif kind == 'rdict':
     # a mapping whose keys are plain strings spelled like the reserved markers
-    return dict(zip(RESERVED_LOOKALIKE_KEYS, vals))
-  if kind == 'list':
-    return vals
-  return tuple(vals)
+    out = dict(zip(RESERVED_LOOKALIKE_KEYS, vals))
+  elif kind == 'list':
+    out = vals
+  else:
+    out = tuple(vals)
+  built.append(out)
+  return out
 
 
 def show(spec):
   if isinstance(spec, str):
     return spec[0]
+  if spec[0] == 'alias':
+    return '^%d' % spec[1]   # the same object as the n-th completed object
   o, c = {'dict': '{}', 'list': '[]', 'tuple': '()', 'rdict': '{}'}[spec[0]]
   return o + ','.join(show(x) for x in spec[1]) + c
 
 
 def with_lookalike_keys(spec):
   """The same tree with every dict keyed by 'SELF' / 'SKIP' (plain strings)."""
-  if isinstance(spec, str):
+  if isinstance(spec, str) or spec[0] == 'alias':
     return spec
   kind = 'rdict' if spec[0] == 'dict' else spec[0]
   return (kind, tuple(with_lookalike_keys(c) for c in spec[1]))
 
 
 def has_dict(spec):
-  return not isinstance(spec, str) and (
+  return not isinstance(spec, str) and spec[0] != 'alias' and (
       spec[0] in ('dict', 'rdict') or any(has_dict(c) for c in spec[1]))
